@@ -17,8 +17,8 @@ type c09Op struct {
 	Fail     bool   `json:"fail,omitempty"`  // task returns an error (HandleError path)
 	StallNs  int    `json:"stall,omitempty"` // task sleeps (simulated ns)
 	Yields   int    `json:"yields,omitempty"`
-	Children int    `json:"children,omitempty"` // task submits further tasks
-	PauseNs  int    `json:"pause,omitempty"`    // submitter sleeps before the op
+	Children int    `json:"children,omitempty"`  // task submits further tasks
+	PauseNs  int    `json:"pause,omitempty"`     // submitter sleeps before the op
 	WaitNext bool   `json:"wait_next,omitempty"` // kind "pair": the first task blocks until the second (added right behind it) is done
 }
 
